@@ -134,6 +134,12 @@ pub struct Ctl {
     /// store calls of the driven `next` currently in flight (0: a `Pending` of `next` comes from
     /// a suspension point of the processor's own code, outside every store call)
     in_call: Cell<usize>,
+    /// fault injection for `process`: while armed, store calls are numbered and the call with
+    /// index `fail_at` returns an error instead of being executed
+    pub fail_armed: Cell<bool>,
+    pub fail_idx: Cell<usize>,
+    pub fail_at: Cell<Option<usize>>,
+    pub failed_call: Cell<Option<&'static str>>,
 }
 
 impl Ctl {
@@ -196,9 +202,19 @@ impl<S> Gate<S> {
         Gate { inner, ctl }
     }
 
-    async fn gated<F: Future>(&self, call: &'static str, fut: F) -> F::Output {
+    async fn gated<V, E: From<sqlx::Error>, F: Future<Output = Result<V, E>>>(&self, call: &'static str, fut: F) -> Result<V, E> {
         let ctl = &self.ctl;
         ctl.idle.set(false);
+        if ctl.fail_armed.get() {
+            let k = ctl.fail_idx.get();
+            ctl.fail_idx.set(k + 1);
+            if ctl.fail_at.get() == Some(k) {
+                // the call fails before it reaches the database (a timed-out pool, a lost connection)
+                ctl.fail_at.set(None);
+                ctl.failed_call.set(Some(call));
+                return Err(E::from(sqlx::Error::PoolTimedOut));
+            }
+        }
         if !ctl.armed.get() {
             return fut.await;
         }
@@ -271,7 +287,10 @@ impl<S> Gate<S> {
     }
 }
 
-impl<S: Transaction> Transaction for Gate<S> {
+impl<S: Transaction> Transaction for Gate<S>
+where
+    S::Error: From<sqlx::Error>,
+{
     type Error = S::Error;
     type Permit = S::Permit;
 
@@ -286,7 +305,10 @@ impl<S: Transaction> Transaction for Gate<S> {
     }
 }
 
-impl<ID: ToString, S: OrdererStore<ID>> OrdererStore<ID> for Gate<S> {
+impl<ID: ToString, S: OrdererStore<ID>> OrdererStore<ID> for Gate<S>
+where
+    S::Error: From<sqlx::Error>,
+{
     type Error = S::Error;
 
     async fn mark_ready(&self, id: ID) -> Result<bool, Self::Error> {
@@ -319,7 +341,10 @@ impl<ID: ToString, S: OrdererStore<ID>> OrdererStore<ID> for Gate<S> {
     }
 }
 
-impl<T, ID, S: OperationStore<T, ID>> OperationStore<T, ID> for Gate<S> {
+impl<T, ID, S: OperationStore<T, ID>> OperationStore<T, ID> for Gate<S>
+where
+    S::Error: From<sqlx::Error>,
+{
     type Error = S::Error;
 
     async fn insert_operation<L: LogId>(&self, id: &ID, operation: &T, log_id: &L) -> Result<bool, Self::Error> {
